@@ -221,12 +221,16 @@ class ObjectiveSpy:
 
 
 class ConstraintSpy:
-    def __init__(self, j, comps, faults=(), scalar=False, nargs=0):
+    def __init__(self, j, comps, faults=(), scalar=False, nargs=0,
+                 expected_args=()):
         self.j = j
         self.comps = comps
         self.faults = list(faults)
         self.calls = 0
         self.scalar = scalar
+        # the extra arguments the USER stated for this function (dict
+        # constraints); the value "as the user stated it" uses these
+        self.expected_args = tuple(float(a) for a in expected_args)
 
     def __call__(self, x, *args):
         x = np.asarray(x)
@@ -237,11 +241,23 @@ class ConstraintSpy:
         idx = self.calls
         self.calls += 1
         xx = np.array(x, dtype=float)
-        v = np.array([f(xx) for f in self.comps], dtype=float)
+        v0 = np.array([f(xx) for f in self.comps], dtype=float)
+        v = v0
         for a in args:
             v = v + float(a)
         v = _apply_faults(self.faults, idx, x, v)
         ev["v"] = np.array(v, dtype=float, copy=True)
+        got = tuple(float(a) for a in args)
+        if got != self.expected_args:
+            # called with other extra arguments than the user stated: keep
+            # the value the user's statement implies for the ground truth
+            vt = v0
+            for a in self.expected_args:
+                vt = vt + a
+            ev["v_stated"] = np.array(_apply_faults(self.faults, idx, x, vt),
+                                      dtype=float, copy=True)
+            ev["args_got"] = got
+            ev["args_stated"] = self.expected_args
         ev["done"] = True
         if self.scalar and v.size == 1:
             return float(v[0])
@@ -398,7 +414,9 @@ def build(spec, readonly=False):
         spy = ConstraintSpy(
             j, comps,
             [f for f in faults if f["target"] == "con" and f.get("j", 0) == j],
-            scalar=nc.get("scalar", False))
+            scalar=nc.get("scalar", False),
+            expected_args=nc.get("cargs", ()) if nc.get("form", "nlc") != "nlc"
+            else ())
         b.con_spies.append(spy)
         form = nc.get("form", "nlc")
         m = len(comps)
